@@ -152,9 +152,13 @@ func (st *Statement) expandSelectColumns(sel sqsql.SelectStmt) ([]string, error)
 		return nil, err
 	}
 
+	named := map[int]bool{} // columns really called `*`
+	for _, i := range sel.NamedStar {
+		named[i] = true
+	}
 	var cols []string
-	for _, c := range sel.Columns {
-		if c == "*" {
+	for i, c := range sel.Columns {
+		if c == "*" && !named[i] {
 			cols = append(cols, allCols...)
 			continue
 		}
